@@ -211,6 +211,18 @@ def _exec_scenario(args):
             out["runs"].append({"fault": ["unknown", k], "fired": i2["unknown"], "events": evs})
         i3, evs = run(None, None, multi=True)  # parallel evaluation under the same budgets, no fault
         out["runs"].append({"fault": ["multi", 0], "fired": True, "events": evs})
+        # parallel evaluation with faults: the patched clock / solver are inherited by the forked workers, each with its own copy of
+        # the counters as they stood at the fork. A jump at the parent's k-th read expires the parent's view (join deadlines) and,
+        # for k beyond the fork, every worker at its own k-th read; an 'unknown' at check k hits each worker's k-th solver call.
+        if sc["budgets"] != [0, 0, 0]:
+            rr = random.Random(i3["reads"] * 31 + i3["checks"])
+            pts = sorted(set(rr.sample(range(1, i3["reads"] + 9), min(max_points // 8, i3["reads"] + 8))))
+            for k in pts:
+                i4, evs = run(k, None, multi=True)
+                out["runs"].append({"fault": ["multi-clock", k], "fired": True, "events": evs})
+            for k in range(i3["checks"] + 1, i3["checks"] + 1 + min(3, max_points // 20)):
+                i4, evs = run(None, k, multi=True)
+                out["runs"].append({"fault": ["multi-unknown", k], "fired": True, "events": evs})
     except BaseException as e:
         if isinstance(e, (KeyboardInterrupt, SystemExit)):
             raise
@@ -341,6 +353,11 @@ def run(chk: Check, tier: str):
     chk.cov["scenarios"] = len(scen)
     chk.cov["observation_points_per_scenario"] = [{"config": r["sc"]["cfg"], "budgets_s": r["sc"]["budgets"], "clock_reads": r["points"][0], "optimize_checks": r["points"][1]} for r in results if not r["error"]]
     chk.cov["faults_fired"] = points
+    # parallel faulted runs: how many actually produced a flagged row (the fault reached the parent's deadline or a worker)
+    par = [run_ for r in results if not r["error"] for run_ in r["runs"] if run_["fault"] and run_["fault"][0] in ("multi-clock", "multi-unknown")]
+    flagged = sum(1 for run_ in par if any(e["ev"] == "return" and any(row[3] or row[4] for row in e["rows"]) for e in run_["events"]))
+    chk.cov["parallel_faulted_runs"] = len(par)
+    chk.cov["parallel_faulted_runs_with_flagged_rows"] = flagged
     # ---- hung worker under parallel evaluation (real time, ~12 s, run concurrently)
     hung = []
     for cfg in [("p", "", False), ("w", "rc2", False), ("c", "rc2", False)][: (3 if tier == "quick" else 3)]:
@@ -379,7 +396,7 @@ def run(chk: Check, tier: str):
         "is validated by TLC against Budget.tla. Non-trivial = faulted run whose fault actually fired; distinct by (scenario, fault)."
     )
     chk.assumptions += ["a solver time-out is simulated by the `unknown` result of Optimize.check, the only form in which the code can observe it",
-                        "the virtual clock is shared by the deadline clock and the timing clock; faults are injected in sequential evaluation"]
+                        "the virtual clock is shared by the deadline clock and the timing clock; in parallel evaluation every forked worker carries its own copy of the fault counters (a fault point applies to each worker separately)"]
     if idx:
         r, run_ = idx[min(3, len(idx) - 1)]
         chk.sample({"scenario": _doc(r["sc"]), "fault": run_["fault"], "trace_events": to_trace(r["sc"], r["truth"], run_["events"])["events"][:10]})
